@@ -237,7 +237,16 @@ pub fn gen_pair(ch: &mut Choices, id: u64) -> Option<Pair> {
         settings,
         inputs,
         rules: ag.rules.iter().map(|r| r.name.clone()).collect(),
-        ident_tokens: ag.tokens.clone(),
+        // N_* constants only exist for identifier-like token names
+        ident_tokens: ag
+            .tokens
+            .iter()
+            .filter(|t| {
+                let mut cs = t.chars();
+                cs.next().map(|c| c.is_ascii_alphabetic() || c == '_').unwrap_or(false) && cs.all(|c| c.is_ascii_alphanumeric() || c == '_')
+            })
+            .cloned()
+            .collect(),
     })
 }
 
@@ -286,7 +295,19 @@ fn run_batch(engine: &Path, pairs: &[Pair]) -> Result<Value, (String, String)> {
         .map_err(|e| ("infra".to_string(), e.to_string()))?;
     if !out.status.success() {
         let err = String::from_utf8_lossy(&out.stderr).to_string();
-        let kind = if err.contains(".y.rs") || err.contains(".l.rs") { "generated-code" } else { "infra" };
+        // a rustc *error* located in a generated module (not in the harness' own glue)
+        let mut in_error = false;
+        let mut generated = false;
+        for l in err.lines() {
+            if l.starts_with("error") {
+                in_error = true;
+            } else if l.starts_with("warning") {
+                in_error = false;
+            } else if in_error && l.trim_start().starts_with("-->") && (l.contains(".y.rs") || l.contains(".l.rs")) {
+                generated = true;
+            }
+        }
+        let kind = if generated { "generated-code" } else { "infra" };
         return Err((kind.to_string(), err));
     }
     let run = Command::new(engine.join("target/release/ctbatch")).env("RUST_BACKTRACE", "0").output().map_err(|e| ("infra".to_string(), e.to_string()))?;
